@@ -56,6 +56,10 @@ pub enum LogOp {
     BumpTerm,
     /// let the 500 ms flush timer fire (L2)
     Idle,
+    /// L2 roll-over scenarios only: batch-append records (big: ~150-byte records = 3-byte index deltas, else minimal
+    /// records = 2-byte deltas) until the open log file is `stop` records short of filling its 4 KB index area, i.e.
+    /// of the real switch to a new log file (173k / 259k records)
+    FillToRollover { big: bool, stop: u16 },
 }
 
 #[derive(Debug, Clone, Serialize, Deserialize)]
@@ -143,6 +147,37 @@ pub fn op_strategy(profile: Profile, l2: bool) -> BoxedStrategy<LogOp> {
     proptest::strategy::Union::new_weighted(v).boxed()
 }
 
+/// Roll-over scenario (L2): fill the first log file up to a generated distance from the real file switch, then a short
+/// generated history that works around / across the switch (appends, truncations reaching back into the closed
+/// file, reopen), optionally a second fill.
+pub fn roll_case_strategy(profile: Profile) -> BoxedStrategy<LogCase> {
+    let near = prop_oneof![
+        5 => (1u8..40).prop_map(Near::LastN),
+        2 => (-2i8..=2).prop_map(Near::IndexBoundary),
+        1 => Just(Near::TwoBoundariesBack),
+        1 => Just(Near::Any),
+    ];
+    let (w_trunc, w_reopen) = match profile {
+        Profile::Durability => (3, 5),
+        Profile::Truncation => (7, 4),
+    };
+    let op = prop_oneof![
+        4 => size_strategy().prop_map(|size| LogOp::Append { size }),
+        5 => (1u16..300, size_strategy(), any::<bool>()).prop_map(|(n, size, batch)| LogOp::AppendMany { n, size, batch }),
+        w_trunc => (any::<u16>(), near.clone(), remode_strategy(), 1u8..6, any::<bool>()).prop_map(|(at, near, mode, count, batch)| LogOp::Truncate { at, near, mode, count, batch }),
+        1 => (any::<u16>(), near).prop_map(|(at, near)| LogOp::StripOnly { at, near }),
+        2 => (any::<u16>(), any::<u16>()).prop_map(|(a, b)| LogOp::Read { a, b }),
+        w_reopen => Just(LogOp::Reopen),
+        1 => Just(LogOp::BumpTerm),
+    ];
+    (any::<bool>(), prop_oneof![3 => 0u16..6, 3 => 6u16..140, 2 => 140u16..400], prop::collection::vec(op, 4..14))
+        .prop_map(|(big, stop, mut ops)| {
+            ops.insert(0, LogOp::FillToRollover { big, stop });
+            LogCase { start_index: 1, pre_term: 0, ops }
+        })
+        .boxed()
+}
+
 pub fn case_strategy(profile: Profile, l2: bool, max_ops: usize) -> BoxedStrategy<LogCase> {
     (
         prop_oneof![3 => Just(1u64), 1 => Just(0u64), 2 => 2u64..100_000, 1 => Just(1u64 << 33)],
@@ -223,7 +258,18 @@ pub struct LogModel {
     // open file layout
     pub file_start_index: u64,
     pub file_first_entry_pos: usize, // position in `entries` of the open file's first record
+    // mirror of the open file's index area (only for aiming at the real file switch; never part of the oracle)
+    pub track_roll: bool,
+    pub idx_cursor: u64,
+    pub grp_bytes: u64,
+    pub grp_count: u64,
+    /// (start index, position of the first entry) of every log file the mirror believes to exist, oldest first
+    pub files: Vec<(u64, usize)>,
+    pub rollovers: u64,
 }
+
+pub const INDEX_AREA_START: u64 = 32;
+pub const DATA_AREA_START: u64 = 4096;
 
 impl LogModel {
     pub fn new(start_index: u64, pre_term: u64) -> Self {
@@ -235,6 +281,75 @@ impl LogModel {
             version: 0,
             file_start_index: start_index,
             file_first_entry_pos: 0,
+            track_roll: false,
+            idx_cursor: INDEX_AREA_START,
+            grp_bytes: 0,
+            grp_count: 0,
+            files: vec![(start_index, 0)],
+            rollovers: 0,
+        }
+    }
+    /// the store switches to a new file when, after an index entry has been written, fewer than 10 bytes of the
+    /// index area are left
+    pub fn index_area_full(&self) -> bool {
+        self.idx_cursor + 10 >= DATA_AREA_START
+    }
+    /// records that still fit into the open file before the switch, assuming records of `rec_len` bytes
+    pub fn records_until_switch(&self, rec_len: u64) -> u64 {
+        let mut cur = self.idx_cursor;
+        let mut n = 0u64;
+        let mut first = true;
+        while cur + 10 < DATA_AREA_START {
+            let (cnt, bytes) = if first { (128 - self.grp_count, self.grp_bytes + (128 - self.grp_count) * rec_len) } else { (128, 128 * rec_len) };
+            first = false;
+            n += cnt;
+            cur += vlen(bytes);
+        }
+        n
+    }
+    /// called after the entry has been pushed
+    fn mirror_push(&mut self, rec_len: u64) {
+        self.grp_bytes += rec_len;
+        self.grp_count += 1;
+        if self.grp_count == 128 {
+            self.idx_cursor += vlen(self.grp_bytes);
+            self.grp_bytes = 0;
+            self.grp_count = 0;
+            if self.index_area_full() {
+                self.mirror_switch();
+            }
+        }
+    }
+    fn mirror_switch(&mut self) {
+        self.file_start_index = self.end();
+        self.file_first_entry_pos = self.entries.len();
+        self.files.push((self.file_start_index, self.file_first_entry_pos));
+        self.idx_cursor = INDEX_AREA_START;
+        self.grp_bytes = 0;
+        self.grp_count = 0;
+        self.rollovers += 1;
+    }
+    fn mirror_recompute(&mut self) {
+        // files that start behind the new end are gone; the file that holds the end is the open one again
+        let end = self.end();
+        while self.files.len() > 1 && self.files.last().map(|f| f.0 > end).unwrap_or(false) {
+            self.files.pop();
+        }
+        let (start, pos) = *self.files.last().unwrap();
+        self.file_start_index = start;
+        self.file_first_entry_pos = pos.min(self.entries.len());
+        self.idx_cursor = INDEX_AREA_START;
+        self.grp_bytes = 0;
+        self.grp_count = 0;
+        let lens: Vec<u64> = self.entries[self.file_first_entry_pos..].iter().map(|e| record_len(e.index, e.term, e.value_len)).collect();
+        for l in lens {
+            self.grp_bytes += l;
+            self.grp_count += 1;
+            if self.grp_count == 128 {
+                self.idx_cursor += vlen(self.grp_bytes);
+                self.grp_bytes = 0;
+                self.grp_count = 0;
+            }
         }
     }
     pub fn end(&self) -> u64 {
@@ -346,6 +461,10 @@ impl LogModel {
             self.first_index = e.index;
         }
         self.entries.push(e.clone());
+        if self.track_roll {
+            let l = record_len(e.index, e.term, e.value_len);
+            self.mirror_push(l);
+        }
         e
     }
 
@@ -354,6 +473,10 @@ impl LogModel {
             return vec![];
         }
         let pos = (k.max(self.first_index) - self.first_index) as usize;
-        self.entries.split_off(pos)
+        let removed = self.entries.split_off(pos);
+        if self.track_roll {
+            self.mirror_recompute();
+        }
+        removed
     }
 }
